@@ -189,6 +189,9 @@ ExtendOne(vr, sm, dc, space, e) ==
            sp == space[dc.n]
        IN  IF \/ ~Active(sm, dc.n, e) \/ s.exp < e \/ dc.exp < s.exp
               \/ dc.exp - s.act < MinLife \/ dc.exp > e + MaxLife
+              \* (the new power-base epoch is e: an "extension" to e itself leaves a duration of 0, and the
+              \*  actor aborts in the QA-power division -- observed as a panic, recorded as a NOTE)
+              \/ dc.exp <= e
            THEN [ok |-> FALSE, SM |-> sm]
            ELSE IF s.vs > 0 /\ (~sp.has \/ sp.check # s.vs \/ (sp.check # sp.keep /\ s.exp - e > DropPeriod))
            THEN [ok |-> FALSE, SM |-> sm]
